@@ -54,6 +54,9 @@ type vfC06Case struct {
 	Before []vfPacketSpec `json:"before,omitempty"`
 	// RealClient: a non-stanza packet is routed with a real *Client as the sender instead of a recording stub
 	RealClient bool `json:"real_client,omitempty"`
+	// Late: the last Late routes of the table are registered only after the Before packets have been routed (an
+	// application may add a route at any time; from then on it is part of the table)
+	Late int `json:"late,omitempty"`
 }
 
 type vfRecSender struct {
@@ -298,8 +301,7 @@ func vfC06Run(run *vfkit.Run, cs vfC06Case) {
 	var mu sync.Mutex
 	var calls []int
 	var callPkts []stanza.Packet
-	for i, rs := range cs.Routes {
-		i := i
+	addRoute := func(i int, rs vfRouteSpec) {
 		h := HandlerFunc(func(s Sender, p stanza.Packet) {
 			mu.Lock()
 			calls = append(calls, i)
@@ -325,7 +327,7 @@ func vfC06Run(run *vfkit.Run, cs vfC06Case) {
 					rt.IQNamespaces(args...)
 				}
 			}
-			continue
+			return
 		}
 		rt := router.NewRoute()
 		for _, m := range rs.Matchers {
@@ -340,6 +342,13 @@ func vfC06Run(run *vfkit.Run, cs vfC06Case) {
 			}
 		}
 		rt.HandlerFunc(h)
+	}
+	late := cs.Late
+	if late > len(cs.Routes) || len(cs.Before) == 0 {
+		late = 0
+	}
+	for i, rs := range cs.Routes[:len(cs.Routes)-late] {
+		addRoute(i, rs)
 	}
 	snd := &vfRecSender{}
 	want, decided := vfRefRoute(cs)
@@ -358,6 +367,12 @@ func vfC06Run(run *vfkit.Run, cs vfC06Case) {
 		if bp, err := vfParseOne(b.XML); err == nil {
 			router.route(&vfRecSender{}, bp)
 		}
+	}
+	for i := len(cs.Routes) - late; i < len(cs.Routes); i++ {
+		addRoute(i, cs.Routes[i])
+	}
+	if late > 0 {
+		run.Count("packets_routed_after_a_late_registration", 1)
 	}
 	mu.Lock()
 	calls, callPkts = nil, nil
@@ -479,7 +494,7 @@ func TestVf_C06(t *testing.T) {
 		if c%8 == 0 || r.Intn(16) == 0 {
 			table, history = vfGenRoutes(r), nil
 		}
-		cs := vfC06Case{Routes: table, Packet: vfGenPacket(r, c), Before: append([]vfPacketSpec(nil), history...), RealClient: c%2 == 0}
+		cs := vfC06Case{Routes: table, Packet: vfGenPacket(r, c), Before: append([]vfPacketSpec(nil), history...), RealClient: c%2 == 0, Late: []int{0, 0, 1, 2}[r.Intn(4)]}
 		history = append(history, cs.Packet)
 		if len(cs.Before) > 0 {
 			run.Count("packets_routed_after_other_traffic", 1)
